@@ -175,7 +175,7 @@ def run(facts):
                     continue
                 off = offs[0]
                 vec = "from_raw_parts"
-            elif nm == "rebuild_vec" and not b.id.endswith("rebuild_vec"):
+            elif nm == "rebuild_vec" and not b.id.endswith("rebuild_vec") and len(a) >= 4:
                 off = a[3]
                 vec = "rebuild_vec"
             if vec is None:
